@@ -57,10 +57,11 @@ extern void msg_allocator_free(struct lp_msg *msg);
 extern struct lp_msg *msg_allocator_alloc(unsigned payload_size);
 
 enum { C_STEPS, C_DELIVER, C_ROLLBACK, C_ANTI, C_GVT, C_FOSSIL_MSGS, C_COMMIT_CHECKED, C_QUIESCENT, C_ROLLBACK_AFTER_FOSSIL, C_TO_POS0,
-	C_HELD_MAX, C_ANTI_UNPROCESSED, C_SILENT, C_ACCT_CHECKED, C_ANTI_CASCADE };
+	C_HELD_MAX, C_ANTI_UNPROCESSED, C_SILENT, C_ACCT_CHECKED, C_ANTI_CASCADE, C_REMOTE, C_REMOTE_ANTI, C_EARLY_ANTI };
 
 static const char *P_model = "L2_I1,2_R2,1,7_P5_K100_M0_G0_H4_C2_S0";
 static int P_ckpt = 1, P_glow = 0, P_maxg = 1000;
+static int P_rm; /* rm=1 (binary built with -DHPROC_REMOTE): the LPs are spread over 2 nodes, see "remote messages" below */
 
 static struct rx_result REF;
 
@@ -73,6 +74,7 @@ struct rec {
 	int has_h;
 	uint64_t h_after;
 	unsigned seq;
+	int remote_sent; /* the sender's copy of a message that went to another node */
 };
 static struct rec recs[MAXREC];
 static int nrecs;
@@ -223,6 +225,8 @@ struct lp_msg *vw_msg_queue_extract(void)
 	struct lp_msg *m = msg_queue_extract();
 	cur_msg = m;
 	if(m) {
+		if(P_rm)
+			nid = lid_to_nid(m->dest); /* the call runs on the node hosting the LP */
 		cur_dest = m->dest;
 		cur_was_anti = (atomic_load_explicit(&m->flags, memory_order_relaxed) & MSG_FLAG_ANTI) != 0;
 		snprintf(cur_str, sizeof cur_str, "%s pl=%016lx", msg_str(m), (unsigned long)vm_payload_hash(m->pl, m->pl_size));
@@ -254,6 +258,8 @@ static void free_common(struct lp_msg *m, const char *who, int commit)
 		rs_fail("%s frees a message that is not live (double free?): %p", who, (void *)m);
 	if(r->where == W_POOL || r->where == W_QUEUE)
 		rs_fail("%s frees a message that is still %s: %s", who, r->where == W_POOL ? "in flight" : "queued", msg_str(m));
+	if(commit && r->remote_sent)
+		commit = 0; /* the sender's copy of a remote message: released with the (committed) event that sent it */
 	if(commit) {
 		if(!in_collect)
 			rs_engine_error("fossil.c released a message outside fossil_lp_collect()");
@@ -294,6 +300,195 @@ array_count_t vw_model_allocator_checkpoint_restore(struct mm_state *self, array
 		rs_count(C_TO_POS0, 1);
 	}
 	return model_allocator_checkpoint_restore(self, ref_i);
+}
+
+/* ---- remote messages (rm=1, binary built with -DHPROC_REMOTE against the real distributed/mpi.c) ----
+ * The LPs are spread over 2 nodes by the runtime's own lid_to_nid(); `nid` follows the LP whose call is running.  What an LP sends
+ * to an LP of the other node goes through the real mpi_remote_msg_send()/mpi_remote_anti_msg_send() into MPI_Isend() below, which
+ * keeps the bytes on a wire pool; a step W(w) makes exactly that message visible to MPI_Improbe() and runs the real
+ * mpi_remote_msg_handle() on the destination node (allocation, copy, gvt_remote_*_receive, queue insertion), then process_msg().
+ * Every order of wire deliveries is explored: with several receiver threads (match in one thread, insert later) every order is a
+ * behaviour of the real runtime, in particular an anti-message overtaking the event it cancels. */
+static uint64_t content_key(const struct lp_msg *m)
+{
+	uint64_t h = rs_mix(m->dest, (uint64_t)(m->dest_t * 16.0));
+	h = rs_mix(h, m->m_type);
+	h = rs_mix(h, m->pl_size);
+	return rs_mix(h, vm_payload_hash(m->pl, m->pl_size));
+}
+#define MAXWIRE 256
+struct wire {
+	unsigned char data[256];
+	int size, dest_nid, anti;
+	uint64_t key;
+	unsigned seq;
+	double t;
+};
+static struct wire wires[MAXWIRE];
+static int nwires, sending_anti;
+static struct wire *visible;
+static struct { uint32_t id, seq; uint64_t key; } idmap[4 * MAXREC];
+static int n_idmap;
+
+extern void mpi_remote_msg_send(struct lp_msg *msg, nid_t dest_nid);
+extern void mpi_remote_anti_msg_send(struct lp_msg *msg, nid_t dest_nid);
+extern void msg_allocator_free_at_gvt(struct lp_msg *msg);
+void vw_mpi_remote_msg_send(struct lp_msg *msg, nid_t dest_nid)
+{
+	struct rec *r = rec_of(msg, 1);
+	r->remote_sent = 1;
+	r->where = W_NONE;
+	sending_anti = 0;
+	mpi_remote_msg_send(msg, dest_nid);
+}
+void vw_mpi_remote_anti_msg_send(struct lp_msg *msg, nid_t dest_nid)
+{
+	struct rec *r = rec_of(msg, 0);
+	if(!r || !r->remote_sent)
+		rs_fail("remote anti-message sent for a message that is not a live remote send: %p", (void *)msg);
+	sending_anti = 1;
+	mpi_remote_anti_msg_send(msg, dest_nid);
+	sending_anti = 0;
+}
+void vw_msg_allocator_free_at_gvt(struct lp_msg *msg)
+{
+	struct rec *r = rec_of(msg, 0);
+	if(!r)
+		rs_fail("lp/process.c schedules the release of a message that is not live (double free?): %p", (void *)msg);
+	rec_drop(r); /* from now on the buffer belongs to the allocator, which releases it below a later GVT */
+	msg_allocator_free_at_gvt(msg);
+}
+
+#ifdef HPROC_REMOTE
+#include <mpi.h>
+#include <distributed/mpi.h>
+int MPI_Isend(const void *buf, int count, MPI_Datatype dt, int dest, int tag, MPI_Comm c, MPI_Request *req)
+{
+	(void)dt, (void)c;
+	*req = MPI_REQUEST_NULL;
+	if(tag != 0 || count <= (int)sizeof(int) || count > (int)sizeof(wires[0].data))
+		rs_engine_error("unexpected MPI_Isend (tag %d, %d bytes)", tag, count);
+	if(nwires >= MAXWIRE)
+		rs_engine_error("wire pool full");
+	const struct lp_msg *m = (const struct lp_msg *)((const char *)buf - offsetof(struct lp_msg, dest));
+	struct wire *w = &wires[nwires++];
+	memset(w, 0, sizeof *w);
+	memcpy(w->data, buf, (size_t)count);
+	w->size = count;
+	w->dest_nid = dest;
+	w->anti = sending_anti;
+	w->t = m->dest_t;
+	w->seq = seq_ctr++;
+	w->key = rs_mix(content_key(m), sending_anti ? 0xa17 : 0x905);
+	if(dest != (int)lid_to_nid(m->dest))
+		rs_fail("remote message sent to node %d, its destination LP %lu lives on node %d", dest, (unsigned long)m->dest, (int)lid_to_nid(m->dest));
+	if(!sending_anti) {
+		if(n_idmap >= 4 * MAXREC)
+			rs_engine_error("id map full");
+		idmap[n_idmap].id = m->raw_flags & ~3u;
+		idmap[n_idmap].seq = m->m_seq;
+		idmap[n_idmap++].key = content_key(m);
+	}
+	rs_logf("    on the wire to node %d: %s%s pl=%016lx\n", dest, sending_anti ? "ANTI " : "", msg_str(m), (unsigned long)vm_payload_hash(m->pl, m->pl_size));
+	return MPI_SUCCESS;
+}
+int MPI_Request_free(MPI_Request *req) { (void)req; return MPI_SUCCESS; }
+int MPI_Improbe(int source, int tag, MPI_Comm c, int *flag, MPI_Message *msg, MPI_Status *st)
+{
+	(void)source, (void)tag, (void)c;
+	*flag = visible != NULL;
+	if(visible) {
+		*msg = (MPI_Message)visible;
+		st->MPI_SOURCE = !visible->dest_nid;
+		st->MPI_TAG = 0;
+		st->MPI_ERROR = 0;
+		st->count = visible->size;
+	}
+	return MPI_SUCCESS;
+}
+int MPI_Get_count(const MPI_Status *st, MPI_Datatype dt, int *count) { (void)dt; *count = st->count; return MPI_SUCCESS; }
+int MPI_Mrecv(void *buf, int count, MPI_Datatype dt, MPI_Message *msg, MPI_Status *st)
+{
+	(void)dt, (void)st;
+	struct wire *w = (struct wire *)*msg;
+	if(w != visible)
+		rs_engine_error("MPI_Mrecv of a message that was not matched");
+	if(count < w->size)
+		rs_fail("MPI_Mrecv with a %d-byte buffer for a %d-byte message", count, w->size);
+	memcpy(buf, w->data, (size_t)w->size);
+	*w = wires[--nwires];
+	visible = NULL;
+	return MPI_SUCCESS;
+}
+#define NOTUSED(name) rs_engine_error(name " is not expected in h_proc"); return 1
+int MPI_Init_thread(int *argc, char ***argv, int required, int *provided) { (void)argc, (void)argv, (void)required, (void)provided; NOTUSED("MPI_Init_thread"); }
+int MPI_Finalize(void) { NOTUSED("MPI_Finalize"); }
+int MPI_Comm_create_errhandler(MPI_Comm_errhandler_function *f, MPI_Errhandler *e) { (void)f, (void)e; NOTUSED("MPI_Comm_create_errhandler"); }
+int MPI_Comm_set_errhandler(MPI_Comm c, MPI_Errhandler e) { (void)c, (void)e; NOTUSED("MPI_Comm_set_errhandler"); }
+int MPI_Comm_get_errhandler(MPI_Comm c, MPI_Errhandler *e) { (void)c, (void)e; NOTUSED("MPI_Comm_get_errhandler"); }
+int MPI_Errhandler_free(MPI_Errhandler *e) { (void)e; NOTUSED("MPI_Errhandler_free"); }
+int MPI_Error_string(int code, char *s, int *len) { (void)code, (void)s, (void)len; NOTUSED("MPI_Error_string"); }
+int MPI_Comm_rank(MPI_Comm c, int *rank) { (void)c, (void)rank; NOTUSED("MPI_Comm_rank"); }
+int MPI_Comm_size(MPI_Comm c, int *size) { (void)c, (void)size; NOTUSED("MPI_Comm_size"); }
+int MPI_Send(const void *buf, int count, MPI_Datatype dt, int dest, int tag, MPI_Comm c) { (void)buf, (void)count, (void)dt, (void)dest, (void)tag, (void)c; NOTUSED("MPI_Send"); }
+int MPI_Mprobe(int source, int tag, MPI_Comm c, MPI_Message *msg, MPI_Status *st) { (void)source, (void)tag, (void)c, (void)msg, (void)st; NOTUSED("MPI_Mprobe"); }
+int MPI_Ireduce_scatter_block(const void *sendbuf, void *recvbuf, int recvcount, MPI_Datatype dt, MPI_Op op, MPI_Comm c, MPI_Request *req) { (void)sendbuf, (void)recvbuf, (void)recvcount, (void)dt, (void)op, (void)c, (void)req; NOTUSED("MPI_Ireduce_scatter_block"); }
+int MPI_Iallreduce(const void *sendbuf, void *recvbuf, int count, MPI_Datatype dt, MPI_Op op, MPI_Comm c, MPI_Request *req) { (void)sendbuf, (void)recvbuf, (void)count, (void)dt, (void)op, (void)c, (void)req; NOTUSED("MPI_Iallreduce"); }
+int MPI_Test(MPI_Request *req, int *flag, MPI_Status *st) { (void)req, (void)flag, (void)st; NOTUSED("MPI_Test"); }
+int MPI_Barrier(MPI_Comm c) { (void)c; NOTUSED("MPI_Barrier"); }
+
+/* msg_queue_insert() as called by distributed/mpi.c: the received copy reaches the queue of its LP's worker */
+void vw_mpi_msg_queue_insert(struct lp_msg *m)
+{
+	struct rec *r = rec_of(m, 0);
+	if(!r)
+		rs_engine_error("mpi.c inserted a message it did not allocate");
+	real_insert(m, r);
+}
+static void deliver_wire(struct wire *w)
+{
+	rs_logf("wire delivery to node %d: %s%u bytes t=%g\n", w->dest_nid, w->anti ? "ANTI " : "", (unsigned)w->size, w->t);
+	nid = (nid_t)w->dest_nid;
+	visible = w;
+	mpi_remote_msg_handle();
+	if(visible)
+		rs_engine_error("mpi_remote_msg_handle() did not receive the visible message");
+}
+#else
+static void deliver_wire(struct wire *w) { (void)w; rs_engine_error("rm=1 needs the binary built with -DHPROC_REMOTE"); }
+#endif
+
+static int wires_sorted(struct wire **out)
+{
+	int n = 0;
+	for(int i = 0; i < nwires; ++i)
+		out[n++] = &wires[i];
+	for(int i = 1; i < n; ++i)
+		for(int j = i; j > 0; --j) {
+			const struct wire *a = out[j - 1], *b = out[j];
+			int gt = a->t > b->t || (a->t == b->t && (a->key > b->key || (a->key == b->key && a->seq > b->seq)));
+			if(!gt)
+				break;
+			struct wire *t = out[j - 1];
+			out[j - 1] = out[j];
+			out[j] = t;
+		}
+	return n;
+}
+static uint64_t early_key(const struct lp_msg *a)
+{
+	for(int i = 0; i < n_idmap; ++i)
+		if(idmap[i].id == (a->raw_flags & ~3u) && idmap[i].seq == a->m_seq)
+			return idmap[i].key;
+	return rs_mix(a->dest, (uint64_t)(a->dest_t * 16.0));
+}
+
+extern void process_lp_init(struct lp_ctx *lp);
+void vw_process_lp_init(struct lp_ctx *lp)
+{
+	if(P_rm)
+		nid = lid_to_nid(lp - lps);
+	process_lp_init(lp);
 }
 
 /* ---- invariants after a step ---- */
@@ -399,6 +594,9 @@ static double true_min(void)
 	for(int i = 0; i < nrecs; ++i)
 		if(recs[i].where == W_POOL && recs[i].m->dest_t < mn)
 			mn = recs[i].m->dest_t;
+	for(int i = 0; i < nwires; ++i)
+		if(wires[i].t < mn)
+			mn = wires[i].t;
 	return mn;
 }
 
@@ -456,9 +654,15 @@ static uint64_t digest(void)
 		h = rs_mix(h, lp->fossil_epoch != fossil_epoch_current);
 		h = rs_mix(h, (uint64_t)(lp->p.bound * 16.0));
 		h = rs_mix(h, committed_n[l]);
+		uint64_t se = 0;
+		for(const struct lp_msg *a = lp->p.early_antis; P_rm && a; a = a->next)
+			se += rs_mix(19, early_key(a));
+		h = rs_mix(h, se);
 	}
 	/* in flight and queued: multisets */
 	uint64_t sp = 0, sq = 0;
+	for(int i = 0; i < nwires; ++i)
+		sp += rs_mix(17, wires[i].key);
 	for(int i = 0; i < nrecs; ++i) {
 		if(recs[i].where == W_POOL)
 			sp += rs_mix(11, msg_key(recs[i].m));
@@ -504,6 +708,9 @@ static void final_oracle(void)
 		current_lp = save;
 		if(d != REF.h_final[l])
 			rs_fail("end state of LP %lu differs from the sequential execution", (unsigned long)l);
+		if(P_rm && lp->p.early_antis)
+			rs_fail("at quiescence LP %lu still holds an early remote anti-message (t=%g) that never met its event", (unsigned long)l,
+			    lp->p.early_antis->dest_t);
 		rs_obs(d);
 	}
 }
@@ -538,6 +745,8 @@ static void body(void)
 	auto_ckpt_init();
 	msg_allocator_init();
 	msg_queue_init();
+	if(P_rm)
+		n_nodes = 2; /* lps[] was allocated for all LPs above (one node); from here on routing sees two nodes */
 	lp_init();
 	for(unsigned l = 0; l < VM.n_lps; ++l) {
 		struct rec *r = rec_of(array_get_at(lps[l].p.p_msgs, array_count(lps[l].p.p_msgs) - 1), 0);
@@ -559,11 +768,15 @@ static void body(void)
 		int np = pool_sorted(pool);
 		if(np > 0)
 			rs_count_max(C_HELD_MAX, (uint64_t)np);
-		if(!np && !n_queue)
+		struct wire *wl[MAXWIRE];
+		int nw = wires_sorted(wl);
+		if(np + nw > 0)
+			rs_count_max(C_HELD_MAX, (uint64_t)(np + nw));
+		if(!np && !n_queue && !nw)
 			break;
 		/* menu */
-		enum { O_P, O_D, O_G, O_GLOW };
-		int kind[MAXREC + 4], arg[MAXREC + 4], n = 0;
+		enum { O_P, O_D, O_G, O_GLOW, O_W };
+		int kind[MAXREC + MAXWIRE + 4], arg[MAXREC + MAXWIRE + 4], n = 0;
 		if(n_queue) {
 			kind[n] = O_P;
 			arg[n++] = 0;
@@ -572,6 +785,12 @@ static void body(void)
 			if(i && msg_key(pool[i]->m) == msg_key(pool[i - 1]->m))
 				continue; /* indistinguishable from the previous one */
 			kind[n] = O_D;
+			arg[n++] = i;
+		}
+		for(int i = 0; i < nw; ++i) {
+			if(i && wl[i]->key == wl[i - 1]->key && wl[i]->t == wl[i - 1]->t)
+				continue; /* indistinguishable from the previous one */
+			kind[n] = O_W;
 			arg[n++] = i;
 		}
 		double mn = true_min();
@@ -604,6 +823,17 @@ static void body(void)
 			case O_G:
 				announce(mn);
 				break;
+			case O_W:
+				rs_count(C_DELIVER, 1);
+				rs_count(C_REMOTE, 1);
+				if(wl[arg[c]]->anti)
+					rs_count(C_REMOTE_ANTI, 1);
+				deliver_wire(wl[arg[c]]);
+				do_process("remote delivery + process_msg");
+				for(unsigned l = 0; l < VM.n_lps; ++l)
+					if(lps[l].p.early_antis)
+						rs_count(C_EARLY_ANTI, 1);
+				break;
 			default:
 				announce(mn - 1);
 				break;
@@ -619,6 +849,7 @@ static void configure(int argc, char **argv)
 	P_ckpt = (int)rs_param_int("ck", P_ckpt);
 	P_glow = (int)rs_param_int("glow", P_glow);
 	P_maxg = (int)rs_param_int("maxg", P_maxg);
+	P_rm = (int)rs_param_int("rm", P_rm);
 }
 
 static const struct rs_harness H = {
@@ -628,7 +859,8 @@ static const struct rs_harness H = {
     .digest = digest,
     .describe = describe,
     .counter_names = {"steps", "deliveries", "rollbacks", "anti_messages_delivered", "gvt_announcements", "fossil_released_msgs", "commits_checked",
-	"quiescent_ends", "rollbacks_after_fossil", "rollbacks_to_kept_checkpoint", "max_in_flight", "anti_for_unprocessed", "silent_executions", "sends_accounting_checked", "anti_cascade"},
+	"quiescent_ends", "rollbacks_after_fossil", "rollbacks_to_kept_checkpoint", "max_in_flight", "anti_for_unprocessed", "silent_executions", "sends_accounting_checked", "anti_cascade",
+	"remote_deliveries", "remote_anti_deliveries", "early_remote_antis"},
 };
 
 int main(int argc, char **argv)
